@@ -17,6 +17,15 @@ unit table of omv/ref/flatmodel.py) says what every get_val must return:
 After the history every addressable name is read back, the problem is (final_setup and) run and the
 independent-variable slots must still hold what was set; component outputs are then compared with R.
 
+Two model families feed the same history / placement / Shadow machinery: the G-models of omv/gen/models.py
+(hierarchy, src_indices chains, solver stacks; every variable is an array, "scalars" are (1,)) and the scalar kit of
+omv/gen/c07_kit.py (feed-forward models of IndepVarComp / ExecComp / ExplicitComponent with true 0-d variables -
+shape=(), val=np.array(v), component option default_shape=() - next to (1,) and array variables, auto-IVC inputs with
+set_input_defaults(units=, val=), connected inputs in other (incl. offset) units, 0-d inputs reading one entry of an
+array, and dynamic shapes: shape_by_conn / copy_shape / compute_shape, also inside auto-IVC trees with and without a
+set_input_defaults value; reference = KitModel of that file).  A variable whose dynamic shape is not resolved before
+final_setup is addressed by nothing but a full-value set_val until then.
+
 Mechanism keys:  <op>-raises:<Exc>@<file:func>:<cause>:<value>-to-<index class>:<name kind>:<phase>   and
 <observable>-mismatch:<name mechanism>:<value>-to-<index class>:<name kind>:<unit class>, where <cause> is
 classified from the message + call form (`_cause`) and <name mechanism> from the name's index chain
@@ -42,10 +51,15 @@ RULE = ('random G-models (hierarchy, promotion, connect/promotes src_indices cha
         'absolute member inputs, connected inputs by absolute/promoted name, component outputs) x indices forms '
         '(int, negative int, slice, int array/list, N-D tuple, ellipsis, om.slicer) x units strings of the '
         "variable's family x value forms (scalar, ndarray, nested list), optionally interleaved with "
-        'final_setup/run_model, each replayed in 3 phase placements; distinct = set of (op, name kind, index '
-        'class, unit class, value form) combinations of the history; non-trivial = history contains a set_val '
-        'with indices or a unit conversion')
-MIN_JUDGED = {'quick': 500, 'thorough': 10000}
+        'final_setup/run_model, each replayed in 3 phase placements; second family (scalar kit): random feed-forward '
+        'models of 1-3 ExecComp/ExplicitComponent + IndepVarComp with variables of shape (), (1,) and one array '
+        'shape (declared by shape=(), 0-d val, default_shape=()), auto-IVC inputs (single, shared, '
+        'set_input_defaults units/val), unit-converting and ()<->(1,) and entry-of-array connections, '
+        'shape_by_conn/copy_shape/compute_shape variables, same histories (0-d names: no indices on set_val, '
+        '() and ... on get_val); distinct = set of (op, name kind, index class, unit class, value form) combinations '
+        'of the history (+ model feature set in the kit family); non-trivial = history contains a set_val with '
+        'indices or a unit conversion')
+MIN_JUDGED = {'quick': 1200, 'thorough': 25000}
 REQUIRED_COUNTERS = ['obs:roundtrip-get-after-set', 'obs:roundtrip-input-vector', 'obs:untouched-entries-bitwise', 'obs:alias-read',
                      'obs:final-store-read', 'obs:after-run-ivc-persist', 'obs:after-run-state-vs-R',
                      'obs:cross-placement-compare',
@@ -56,7 +70,25 @@ REQUIRED_COUNTERS = ['obs:roundtrip-get-after-set', 'obs:roundtrip-input-vector'
                      'cell:idx=none', 'cell:idx=scalar-position', 'cell:idx=subarray', 'cell:idxform=tuple',
                      'cell:idxform=slicer', 'cell:idxform=array', 'cell:idxform=negint',
                      'cell:units=asked-scale', 'cell:units=asked-offset', 'cell:units=native',
-                     'cell:chain=indexed-name', 'cell:model=cyclic', 'cell:vectors=complex', 'cell:vectors=real']
+                     'cell:chain=indexed-name', 'cell:model=cyclic', 'cell:vectors=complex', 'cell:vectors=real',
+                     # second family (omv/gen/c07_kit.py): true scalars, 0-d/array mixes, dynamic shapes
+                     'cell:family=G', 'cell:family=scalar-kit',
+                     'cell:kit:decl0d=shape', 'cell:kit:decl0d=default', 'cell:kit:decl0d=val0d',
+                     'cell:kit:decl=ivc-default_shape0d', 'cell:kit:decl=exec-default_shape0d',
+                     'cell:kit:decl=expl-default_shape0d', 'cell:kit:mix=0d+array-in-one-comp',
+                     'cell:kit:conn=entry-of-array', 'cell:kit:param=0d', 'cell:kit:defaults=units+val',
+                     'cell:kit:dyn=shape_by_conn', 'cell:kit:dyn=copy_shape', 'cell:kit:dyn=compute_shape',
+                     'cell:kit:dyn=param-member', 'cell:kit:dyn=param-member+default-val',
+                     'cell:kit:name-shape=0d', 'cell:kit:name-shape=1', 'cell:kit:name-shape=array',
+                     'cell:kit:0d-source-set-converted:scale:pre-final-setup',
+                     'cell:kit:0d-source-set-converted:scale:post-final-setup',
+                     'cell:kit:0d-source-set-converted:scale:post-run',
+                     'cell:kit:0d-source-set-converted:offset:pre-final-setup',
+                     'cell:kit:0d-source-set-converted:offset:post-final-setup',
+                     'cell:kit:0d-source-set-converted:offset:post-run',
+                     'cell:kit:set-in-dyn-tree-with-default-val:pre-final-setup',
+                     'cell:kit:dynamic-shape-name:pre-final-setup', 'cell:kit:dynamic-shape-name:post-run',
+                     'obs:set-of-unresolved-dynamic-variable', 'obs:indexed-read-of-0d']
 ASSUMPTIONS = ['NumPy indexing and the harness unit table (omv/ref/flatmodel.py UNITS/conv) are the reference',
                'only legal calls are generated: units= only for names that have units, taken from the same unit '
                'family; indices valid for NumPy on the name\'s shape with a non-empty result; values of exactly the '
@@ -70,6 +102,14 @@ ASSUMPTIONS = ['NumPy indexing and the harness unit table (omv/ref/flatmodel.py 
                'through 2-link chains with repeated entries or a flat link on a non-contiguous view) are generated in '
                '20% of the histories only, so the other histories are judged in full',
                'a raising set_val is reported once; whatever state it leaves behind is adopted by the shadow store',
+               'scalar kit: set_val with indices is not generated for names whose source is 0-d (OpenMDAO rejects it '
+               'before final_setup: "Can\'t set a non-array using indices"); get_val with indices () or ... on a '
+               '0-d name is judged by value, not by whether the result is 0-d or (1,); a variable whose dynamic shape '
+               'is unresolved before final_setup is only given a full-shape value there (never read, never indexed), '
+               'and not at all when it is 0-d (a python scalar given to a variable of unknown shape is taken as (1,)); '
+               'set_input_defaults(units=U) always comes with val= when U differs from the units of the inputs, and a '
+               'shape_by_conn member of an auto-IVC tree is only generated for non-0-d trees (how these are initialised / '
+               'sized is not part of the property)',
                'component outputs after run_model are compared with R at 1e-8 (solver tolerance), everything else '
                'at 1e-12 x magnitude of the operands incl. unit offsets (round-off of an affine conversion is a few '
                'ulp of the largest operand); cases where a solver reports non-convergence are not judged']
@@ -651,7 +691,8 @@ class Replay:
                 good, why = _close(before, self.shadow.store[n['slot']],
                                    RT * max(1.0, float(np.max(np.abs(before), initial=0.0))))
                 if not good:
-                    self._flag('slot-drifted:%s' % self.canon[n['slot']]['kind'],
+                    cn = self.canon[n['slot']]
+                    self._flag('slot-drifted:%s' % (cn['kind'] if not self.kit else cn['mech'] + ':' + cn['kind']),
                                'slot %s read raw differs from shadow before a set: %s' % (n['slot'], why))
                 self.shadow.store[n['slot']] = before.copy()
             val = op['val']
@@ -766,6 +807,18 @@ class Replay:
             acc.count('cell:units=asked-' + u.split('-')[1])
         if op['op'] == 'set':
             acc.count('cell:valform=%s' % op['form'])
+        if self.kit:
+            acc.count('cell:kit:name-shape=%s' % ('0d' if n['pos'].shape == () else
+                                                  ('1' if n['pos'].shape == (1,) else 'array')))
+            if n['dyn']:
+                acc.count('cell:kit:dynamic-shape-name:%s' % self.phase)
+            if self.fm.out_shape[n['slot']] == ():
+                u = self._ucls(n, op['units'])
+                if op['op'] == 'set' and u in ('units-scale', 'units-offset'):
+                    # the 0-d source + unit conversion + phase grid
+                    acc.count('cell:kit:0d-source-set-converted:%s:%s' % (u.split('-')[1], self.phase))
+            if n['mech'] == 'dyn-tree-with-default-val' and op['op'] == 'set':
+                acc.count('cell:kit:set-in-dyn-tree-with-default-val:%s' % self.phase)
 
     def _read_all(self, tag):
         self._argtxt = ''
